@@ -60,16 +60,23 @@ def runs(draw, tier):
             rows[-1]["rare"] = True        # the least likely outcome in that basis (data need not be typical of the model)
     if draw(st.integers(0, 19)) == 0:
         nbs = draw(st.sampled_from([129, 150, 200, 300]))      # many negative-phase chains (drawn with replacement from the data)
-    return {"state": sc, "rows": rows, "pbs": pbs, "nbs": nbs,
+    long_run = draw(st.integers(0, 24)) == 0
+    if long_run:
+        rows, pbs = rows[:3], 2           # time axis: a run of more than 32 epochs (two steps per epoch on three rows), small learning rate
+    case = {"state": sc, "rows": rows, "pbs": pbs, "nbs": nbs,
             "k": k, "lr": draw(st.floats(1e-3, 1.0, allow_nan=False, width=64)), "epochs": draw(st.integers(1, 3)),
             "gamma": draw(st.one_of(st.none(), st.floats(0.1, 0.9, allow_nan=False, width=64))), "torch_seed": draw(st.integers(0, 2 ** 31 - 1)),
             "sched_kind": draw(st.sampled_from(["step1", "step1", "exp", "step2"])),
+            "aborted_first": draw(st.sampled_from([None, None, None, "on_batch_end", "on_epoch_end"])),
             "se": draw(st.sampled_from([1, 1, 0, 2, 3, 5])),
             # staged training: a second fit() on the same model with another learning rate, re-using the caller's optimizer_args dict
             "stage2_lr": draw(st.one_of(st.none(), st.floats(1e-3, 1.0, allow_nan=False, width=64))),
             "opt_args": draw(st.sampled_from(["none", "empty_dict", "momentum0", "momentum", "wd", "momentum_wd"])),
             "stage3_lr": draw(st.one_of(st.none(), st.none(), st.floats(1e-3, 1.0, allow_nan=False, width=64))),
             "stage2_same_lr": draw(st.booleans()), "reinit_between": draw(st.integers(0, 2)) == 0}
+    if long_run:
+        case.update(epochs=draw(st.integers(33, 35)), lr=min(case["lr"], 0.02), stage2_lr=None, gamma=(case["gamma"] if case["gamma"] is None else max(case["gamma"], 0.9)))
+    return case
 
 
 NAMES = {"weights": "W", "weights_W": "W", "weights_U": "U", "visible_bias": "b", "hidden_bias": "c", "aux_bias": "d"}
@@ -156,6 +163,15 @@ def check(case):
     oargs_keep = None if oargs is None else dict(oargs)
     if oargs is not None:
         kw["optimizer_args"] = oargs
+    if case.get("aborted_first"):
+        # an earlier run on the same state was aborted by an exception from a user callback after its first optimizer step; the caller catches it,
+        # writes the parameters again and trains: the first step of the new run must be exact (nothing of the failed run is left in the gradients)
+        gen.abort_a_fit(state, data, bases if t != "positive" else None, hook=case["aborted_first"], pos_batch_size=case["pbs"], lr=0.5)
+        gen.set_net(state.rbm_am, sc["am"])
+        if sc.get("ph"):
+            gen.set_net(state.rbm_ph, sc["ph"])
+        for k_ in log:
+            del log[k_][:]
     state.fit(data, **kw)
     lr_of_step = [case["lr"]] * len(log["steps"])
     stage1_steps = len(log["steps"])
